@@ -140,6 +140,14 @@ func TestC09(t *testing.T) {
 			}
 		}
 	}
+	// user messages: a three-byte id (0xABCDEF) among them
+	if users, uerr := userMsgInfos(); uerr == nil {
+		for _, u := range users {
+			if id := u.Msg.GetID(); id > 65535 || id == 50002 || id == 201 {
+				pick = append(pick, u)
+			}
+		}
+	}
 	genv, err := newGateEnv(pick)
 	if err != nil {
 		t.Fatal(err)
